@@ -283,11 +283,21 @@ pub fn run_vidya(c: &ValStream, st: &mut Stats) -> CaseResult {
 // ---------------------------------------------------------------------------------------
 // candle-input methods
 
+/// 1 when the stream's first candle is used as the construction value only (decided by the generated length
+/// class, i.e. by the generator, so that it shrinks and replays with the case)
+fn independent_seed(c: &CandleStream) -> usize {
+	(c.n % 2 == 1 && c.cs.len() > 2) as usize
+}
+
 fn run_tr(c: &CandleStream, st: &mut Stats) -> CaseResult {
 	let first = c.cs[0].candle();
 	let mut m = TR::new(&first).map_err(|e| Failure::new("C03:TR:ctor", format!("{e:?}")))?;
 	let mut pc = c.cs[0].c;
-	for (t, k) in c.cs.iter().enumerate() {
+	// the construction candle is the prehistory: in half of the cases it is NOT fed again (a seed that is
+	// re-fed first hides what the constructor took from it, since its own close lies inside its own range)
+	let skip = independent_seed(c);
+	st.class(if skip == 1 { "seed candle independent of the first input" } else { "seed candle fed again first" });
+	for (t, k) in c.cs.iter().enumerate().skip(skip) {
 		let got = m.next(&k.candle()) as f64;
 		let e = k.h.max(pc) - k.l.min(pc);
 		let tol = 4.0 * eps() * (k.h.abs() + pc.abs());
@@ -309,7 +319,8 @@ fn run_heikin(c: &CandleStream, st: &mut Stats) -> CaseResult {
 	let ohlc4 = |k: &gen::C5| (k.h + k.l + k.c + k.o) * 0.25;
 	let mut next_open = ohlc4(&c.cs[0]);
 	let mut mag = Mag::new(c.cs[0].h);
-	for (t, k) in c.cs.iter().enumerate() {
+	let skip = independent_seed(c);
+	for (t, k) in c.cs.iter().enumerate().skip(skip) {
 		let mt = mag.add(k.h);
 		let got = m.next(&k.candle());
 		let open = next_open;
